@@ -188,17 +188,32 @@ def enumerate_format(fmt, ext, full, ctx):
     return n
 
 
+def _add_targeted(case):
+    """One valid candidate for every format named in the argument (so that a format that was silently dropped shows)."""
+    arg = case['formats']
+    fmts = [arg] if isinstance(arg, str) else (arg if isinstance(arg, list) else [])
+    extra = []
+    for f in fmts:
+        if isinstance(f, str) and f in FORMATS:
+            sep = '-' if '-' in f else '/'
+            extra.append(sep.join(VALID[k] for k in f.split(sep)))
+    case['texts'] = list(case['texts']) + extra
+    return case
+
+
 def gen_strategy():
     fm = st.sampled_from(FORMATS)
     bad = st.sampled_from(['DD/MM/YYYY', 'dd-mm', 'yyyy.mm.dd', 'dd-mm/yyyy', '', 'd/d/yy', 'mm/yyyy/dd', 'dd/mm/yyy', ' dd/mm/yyyy'])
     nonstr = st.sampled_from([5, 1.5, True, ('dd/mm/yyyy',)])
-    arg = st.one_of(st.none(), fm, st.lists(fm, min_size=1, max_size=6), st.lists(fm, min_size=1, max_size=6),
+    dup = st.tuples(st.lists(fm, min_size=1, max_size=3), st.integers(0, 2), st.lists(st.one_of(fm, fm, bad), min_size=1, max_size=3)).map(
+        lambda t: t[0] + [t[0][t[1] % len(t[0])]] + t[2])          # a repeated entry followed by further entries
+    arg = st.one_of(st.none(), fm, st.lists(fm, min_size=1, max_size=6), st.lists(fm, min_size=1, max_size=6), dup, dup,
                     bad, nonstr.filter(lambda x: not isinstance(x, tuple)), st.lists(st.one_of(fm, bad), min_size=1, max_size=3),
                     st.lists(st.one_of(fm, st.sampled_from([5, None])), min_size=1, max_size=3), st.just([]))
     field = st.one_of(st.sampled_from(DM), st.sampled_from(YEARS))
     text = st.tuples(field, st.sampled_from(SEPS), field, st.sampled_from(SEPS), field).map(''.join)
     junk = st.sampled_from(['', '1/1', '1/1/1/1', 'a/b/cc', '01-01-2020 ', '٠١/٠١/٢٠٢٠x'])
-    return st.fixed_dictionaries({'formats': arg, 'ext': st.booleans(), 'texts': st.lists(st.one_of(text, text, text, junk), min_size=4, max_size=12)})
+    return st.fixed_dictionaries({'formats': arg, 'ext': st.booleans(), 'texts': st.lists(st.one_of(text, text, text, junk), min_size=4, max_size=12)}).map(_add_targeted)
 
 
 def format_string_cases():
